@@ -1702,6 +1702,13 @@ def c16_cli(ctx, res):
                         continue
                     jobs.append((pn, pre + end + ("\n" if final_nl else ""), via))
 
+    # commands that name a label, on programs that define none (and on one that does): looked up, not found, on to the next
+    _write(os.path.join(d, "no_labels.asm"), "add r0 r0 #1\nadd r0 r0 #1\nhalt\n")
+    progs["no_labels.asm"] = "add r0 r0 #1\nadd r0 r0 #1\nhalt\n"
+    for pn in ("no_labels.asm", "runs_off.asm", "halts.asm"):
+        for cmd in ("goto begin", "print data+1", "break add loop", "assembly nowhere", "break remove m1", "move x 5", "goto m", "print M+1;continue"):
+            for via in ("stdin", "arg"):
+                jobs.append((pn, cmd + ("\n" if via == "stdin" else ""), via))
     # standard input that cannot be read at all (a directory): the script given with --command runs, then the
     # reader meets an error instead of an end - the session ends (giving up counts), it does not spin
     for pn in ("halts.asm", "puts_at_ffff.asm", "to_ffff.asm"):
